@@ -14,11 +14,16 @@
 //  hit       every returned distance is > 0 and x + d u lies on the curve inside the bounds:
 //            the solver iterates until the curve point is within r_b * 1e-8 of the line, so
 //            normal distance <= 3e-8 r_b + rounding
+//  self hit  with state on (start points on the curve to 1 ulp) no in-plane distance below 1e-7 r_b
+//            is reported (documented cut: 1e-6 r_b)
 //  flip      calc_sense differs at x + (d -+ h) u for transversal crossings away from the ends
 //  missed    marching along the ray in steps of r_b/16: a sign change of (a1 - a) between two
 //            consecutive samples, both clearly inside the annulus and with |a1 - a| < 1, proves
 //            a crossing in that step (|grad a1| = 1/r_b, so a1 moves by <= 1/16 per step); it
-//            must not end before the nearest returned distance
+//            must not end before the nearest returned distance.  Attribution of a proven miss:
+//            "involute:missed-nearer-crossing" (recorded known finding) only if a double-precision
+//            copy of the DOCUMENTED bracketing scheme loses the crossing as well, otherwise
+//            "involute:missed-crossing-that-documented-scheme-finds"
 //  normal    unit, equals (sin(t+a), -cos(t+a)) (mirrored for clockwise)
 //  translate SurfaceTranslator(Involute): sense at x + t equals the oracle at x
 #include "oracle/c12_quadric.hh"
